@@ -210,5 +210,16 @@ def run(ctx):
     ctx.require(nsw >= 4, 'only %d step accumulators found in the IMA coders' % nsw)
 
 
+    ctx.rule('SHIFT-RANGE', 'in the codec kernel files (float32.c, double64.c, ulaw.c, alaw.c, ima_adpcm.c, ms_adpcm.c, nms_adpcm.c, vox_adpcm.c, ima_oki_adpcm.c) every shift by a variable amount has its '
+             'count proved inside [0, width of the promoted left operand) by A-PENT: a power of two computed as 1 << e for an exponent that can reach the width is undefined and wraps on x86 '
+             '(the portable IEEE readers use pow () for exactly this reason)', floor=2)
+    from engine.shiftrange import shift_range
+    SR_FILES = ('float32.c', 'double64.c', 'ulaw.c', 'alaw.c', 'ima_adpcm.c', 'ms_adpcm.c', 'nms_adpcm.c', 'vox_adpcm.c', 'ima_oki_adpcm.c')
+    n_sr = shift_range(ctx, prog, eff, SR_FILES)
+    ctx.require(n_sr >= 2, 'only %d variable shifts found in the kernel files' % n_sr)
+    from engine.fixture import generic_fixture as _gf20
+    from engine.effects import Effects as _E20
+    _gf20(ctx, [('SHIFT-RANGE', lambda c_, p_: shift_range(c_, p_, _E20(p_), ('generic_pos.c',)), 'bad_shift')])
+
     from engine.run import borrow
     borrow(ctx, 'C03', ['TABLE-INDEX'], 'a codec kernel that indexes its table outside [0, N) does not compute the published function for that input (and reads foreign memory)')
